@@ -386,6 +386,10 @@ func (rp *HTTPReverseProxy) ServeHTTP(rw http.ResponseWriter, req *http.Request)
 		return
 	}
 
+	// A reverse proxy reads the request body while it writes the response. Without this the HTTP/1
+	// server closes the request body as soon as the response starts, the forwarding transport then
+	// fails its body read, closes the backend connection and the response is cut short.
+	_ = http.NewResponseController(rw).EnableFullDuplex()
 	if req.Method == http.MethodConnect {
 		rp.connectHandler(rw, newreq)
 	} else {
